@@ -5463,7 +5463,8 @@ xpath_sum(struct lyxp_set **args, uint32_t UNUSED(arg_count), struct lyxp_set *s
     if (options & LYXP_SCNODE_ALL) {
         if (args[0]->type == LYXP_SET_SCNODE_SET) {
             for (i = 0; i < args[0]->used; ++i) {
-                if (args[0]->val.scnodes[i].in_ctx == LYXP_SET_SCNODE_ATOM_CTX) {
+                if ((args[0]->val.scnodes[i].in_ctx == LYXP_SET_SCNODE_ATOM_CTX) &&
+                        (args[0]->val.scnodes[i].type == LYXP_NODE_ELEM)) {
                     sleaf = (struct lysc_node_leaf *)args[0]->val.scnodes[i].scnode;
                     if (!(sleaf->nodetype & (LYS_LEAF | LYS_LEAFLIST))) {
                         LOGWRN(set->ctx, "Argument #1 of %s is a %s node \"%s\".", __func__,
